@@ -52,13 +52,15 @@ def gen_rejected_op(rg, kind, attr_family):
     return ops[rg.randrange(len(ops))]
 
 
-def gen_thread_op(rg, fresh, kind, c, readers=False, mut_only=True):
+def gen_thread_op(rg, fresh, kind, c, readers=False, mut_only=True, attr=False):
     """(name, args) for a concurrent program; c is the initial model value at the handle (for keys/indices)."""
     if kind == "dict":
         keys = sorted(c) + ["x", "y"]
         k = keys[rg.randrange(len(keys))]
         if readers:
-            name = rg.choice(["getitem", "get", "len", "iter", "call", "eq", "contains", "keys", "values", "items"])
+            name = rg.choice(["getitem", "get", "len", "iter", "call", "eq", "contains", "keys", "values", "items"] + (["getattr", "getattr"] if attr else []))
+            if name == "getattr":
+                return name, ([k] if rg.random() < 0.5 else [k, fresh.int()])
             if name in ("getitem", "get", "contains"):
                 return name, [k]
             if name == "eq":
@@ -114,7 +116,7 @@ class ThreadWorld(World):
     pass
 
 
-def execute(cfg, threads_prog, strat_spec, sched_seed, pre_steps, ctx_spec=None, step_cap=200000):
+def execute(cfg, threads_prog, strat_spec, sched_seed, pre_steps, ctx_spec=None, step_cap=200000, in_ctx_ops=None):
     """Run one threaded scenario. Returns dict(history, final, sched info, errors)."""
     ns = lib.load()
     w = ThreadWorld(cfg)
@@ -133,6 +135,15 @@ def execute(cfg, threads_prog, strat_spec, sched_seed, pre_steps, ctx_spec=None,
                     cm = w.objs[c["oid"]].o.buffered
                 cm.__enter__()
                 cms.append(cm)
+        # operations executed by the main thread INSIDE the context before the threads start (buffer already holds
+        # modified entries when the concurrent phase begins); they are part of the initial state of the history
+        for op in (in_ctx_ops or []):
+            h = w.handles[op["h"]]
+            r = w.res[w.objs[h.oid].rid]
+            res = M.lib_apply(h.node, op["name"], M.dec(op["args"], None))
+            if isinstance(res, M.Raised) and isinstance(res.exc, (w.ns.errors.BufferException,)):
+                out.setdefault("exit_errors", []).append(f"main-thread op inside the context raised {res!r}")
+            M.model_apply(get_path(r.model, h.path), op["name"], M.dec(op["args"], None))
         lib.lock_labels()
         rng = stream(sched_seed, "sched")
         strat = TS.make_strategy(strat_spec, rng, len(threads_prog))
@@ -179,7 +190,7 @@ def execute(cfg, threads_prog, strat_spec, sched_seed, pre_steps, ctx_spec=None,
         out["history"] = history
         out["held_after"] = [repr(l) for l, o, c in simlock.held()]
         # leave the contexts (innermost first)
-        out["exit_errors"] = []
+        out["exit_errors"] = out.get("exit_errors", [])
         out["final"] = [None for _ in w.res]
         out["bufsize"] = {}
         if not sched.abort:
